@@ -633,6 +633,12 @@ def gen_tecmp_frames(tier, rng):
     for n in (17, 18, 19, 35, 36, 37, 50):
         for _ in range(4):
             out.append((tecmp_frame(rng, 1, rng.choice([0, 2]), tecmp_cm_payload(rng, n)), "cm"))
+    # version bytes at the digit-count boundaries (longest strings: v255.255.255 / v255.255), serial at its extremes
+    for vals in ([255] * 5, [100] * 5, [99] * 5, [9, 10, 100, 9, 10], [0] * 5, [199, 200, 255, 100, 99]):
+        b = bytearray(tecmp_cm_payload(rng, 36))
+        b[13:18] = bytes(vals)
+        b[8:12] = be(rng.choice([0, 9, 10, 4294967295, 1000000000, 999999999]), 4)
+        out.append((tecmp_frame(rng, 1, 0, bytes(b)), "cm-digits"))
     for e in range(0, 41 if tier != "quick" else 12):
         for extra in (0, 1, 11):
             out.append((tecmp_frame(rng, 2, 0, tecmp_bus_payload(rng, e, extra)), "bus"))
@@ -649,7 +655,8 @@ def gen_tecmp_frames(tier, rng):
         pl = rng.choice([tecmp_can_payload(rng, rng.randrange(0, 20)), tecmp_lin_payload(rng, rng.randrange(0, 9)), tecmp_bus_payload(rng, rng.randrange(0, 3))])
         mt = rng.choice([1, 2, 3])
         dt = rng.choice([2, 3, 4])
-        fr = tecmp_frame(rng, mt, dt, pl, plen=rng.choice([0, 1, len(pl), len(pl) + 1, len(pl) - 1 if pl else 0, 0xFFFF]))
+        fr = tecmp_frame(rng, mt, dt, pl, plen=rng.choice([0, 1, len(pl), len(pl) + 1, len(pl) - 1 if pl else 0, 0xFFFF, 0xFFFF - rng.randrange(0, 40),
+                                                               65507, 65508, 0x8000]))
         fr += rng.choice([b"", b"", proto.rand_bytes(rng, 3)])
         cut = rng.choice([len(fr), len(fr), rng.randrange(0, len(fr) + 1)])
         out.append((fr[:cut], "hdr-misfit"))
